@@ -80,9 +80,31 @@ package snps
 
 //@ # C18: validation prefix of the entry point (everything before the first goroutine): a --reference with more than one
 //@ # record is refused; past the check exactly one reference record exists (so refs[0] cannot panic).
-//@ func SNPs prefix
+//@ func SNPs spawns
 //@   modifies everything
 //@   after if#2: assert [c18.oneref] len(refs) == 1
+//@   # the stage-completion loops (spawns mode, see closest.Closest): an error received from any stage is returned, a nil
+//@   # return means that none was received and that all three completion signals were
+//@   after assign:cWriteDone#1: assume [env.errors] forallint(k, envat(cErr, k) != nil)
+//@   ghost gErrSeen bool = false
+//@   loop 1:
+//@     invariant !gErrSeen && len(recvd(cErr)) == 0
+//@   loop 2:
+//@     invariant !gErrSeen && len(recvd(cErr)) == 0 && len(recvd(cFRDone)) == 0
+//@   loop 3:
+//@     invariant !gErrSeen && len(recvd(cErr)) == 0 && len(recvd(cFRDone)) == 1 && len(recvd(cSNPsDone)) == 0
+//@   loop 4:
+//@     invariant !gErrSeen && len(recvd(cErr)) == 0 && len(recvd(cFRDone)) == 1 && len(recvd(cSNPsDone)) == 1 && len(recvd(cWriteDone)) == 0
+//@   before return#3: do gErrSeen = true
+//@   before return#4: do gErrSeen = true
+//@   before return#5: do gErrSeen = true
+//@   before return#3: assert [c18.error.first] len(recvd(cErr)) == 1 && err == recvd(cErr)[0]
+//@   before return#4: assert [c18.error.first] len(recvd(cErr)) == 1 && err == recvd(cErr)[0]
+//@   before return#5: assert [c18.error.first] len(recvd(cErr)) == 1 && err == recvd(cErr)[0]
+//@   before return#6: assert [c18.nil.means.clean] len(recvd(cErr)) == 0 && len(recvd(cFRDone)) == 1 && len(recvd(cSNPsDone)) == 1 && len(recvd(cWriteDone)) == 1
+//@   before call:aggregateWriteOutput#1: assert [c13.writer] aggregate && arg(0) == w && (arg(1) == threshold || (isnan(arg(1)) && isnan(threshold))) && arg(2) == cSNPs && arg(3) == cErr && arg(4) == cWriteDone
+//@   before call:writeOutput#1: assert [c03.writer] !aggregate && arg(0) == w && arg(1) == cSNPs && arg(2) == cErr && arg(3) == cWriteDone
+//@   ensures [c18.error.returned] implies(gErrSeen, result != nil)
 //@   # C03: --hard-gaps reaches BOTH sides of the comparison: the reference codes come from the table hardGaps selects, and the
 //@   # streaming reader of the queries is started with the same flag
 //@   before call:ReadEncodeAlignment#1: assert [c03.refmode] forall(j, 0, len(refSeq), modeOK(refSeq[j], hardGaps))
